@@ -88,7 +88,17 @@ func ctxFor(i int) *hcl.EvalContext {
 func show(v cty.Value, diags hcl.Diagnostics) string {
 	var ds []string
 	for _, d := range diags {
-		ds = append(ds, fmt.Sprintf("%d:%s:%s", d.Severity, d.Summary, d.Detail))
+		line := fmt.Sprintf("%d:%s:%s", d.Severity, d.Summary, d.Detail)
+		// what the diagnostic's own evaluation context holds (innermost level): names and values
+		if d.EvalContext != nil {
+			var names []string
+			for n, val := range d.EvalContext.Variables {
+				names = append(names, n+"="+vfmt.V(val))
+			}
+			sort.Strings(names)
+			line += " ctx{" + strings.Join(names, ",") + "}"
+		}
+		ds = append(ds, line)
 	}
 	sort.Strings(ds)
 	return vfmt.V(v) + " | " + strings.Join(ds, ";")
@@ -569,6 +579,65 @@ func All() []Driver {
 					}
 				}
 				out = append(out, show(v, diags)+" | "+own+fmt.Sprintf(" | vars=%d", len(e.Variables())))
+			}
+			return strings.Join(out, "\n")
+		}})
+	// D19: static analysis (traversal / list / map / call views of an expression) interleaved with
+	// evaluation of the same shared expressions
+	ds = append(ds, Driver{Name: "D19-static-analysis-3", Doc: "hcl.AbsTraversalForExpr / RelTraversalForExpr / ExprList / ExprMap / ExprCall / ExprAsKeyword and Variables on shared expressions (plain references, tuple, object, call, for with failing elements) while other goroutines evaluate them", Threads: 3,
+		Setup: func() any {
+			var es []hcl.Expression
+			for _, src := range []string{"m.k", "l[0].a", "s", "[s, n, m.k]", "{a = s, (s) = n, m.k = 1}", "join(l[*].a)", "[for x in l : x.a.nope]", "[for k, x in m : x + s]"} {
+				es = append(es, mustExpr(src))
+			}
+			je, diags := hcljson.ParseExpression([]byte(`["m.k", {"a": "${s}", "l[0].a": "${n}"}, "${join(l[*].a)}"]`), "t.json")
+			if diags.HasErrors() {
+				panic(diags.Error())
+			}
+			return append(es, je)
+		},
+		Thread: func(shared any, i int) string {
+			ctx := ctxFor(i)
+			var out []string
+			for _, e := range shared.([]hcl.Expression) {
+				var line []string
+				if i != 1 {
+					if t, d := hcl.AbsTraversalForExpr(e); !d.HasErrors() {
+						line = append(line, fmt.Sprintf("abs:%s/%d", t.RootName(), len(t)))
+					}
+					if t, d := hcl.RelTraversalForExpr(e); !d.HasErrors() {
+						line = append(line, fmt.Sprintf("rel:%d", len(t)))
+					}
+					if l, d := hcl.ExprList(e); !d.HasErrors() {
+						line = append(line, fmt.Sprintf("list:%d", len(l)))
+						for _, x := range l {
+							if t, d := hcl.RelTraversalForExpr(x); !d.HasErrors() {
+								line = append(line, fmt.Sprintf("el-rel:%d", len(t)))
+							}
+						}
+					}
+					if m, d := hcl.ExprMap(e); !d.HasErrors() {
+						line = append(line, fmt.Sprintf("map:%d", len(m)))
+						for _, kv := range m {
+							if t, d := hcl.RelTraversalForExpr(kv.Key); !d.HasErrors() {
+								line = append(line, fmt.Sprintf("key-rel:%d", len(t)))
+							}
+						}
+					}
+					if c, d := hcl.ExprCall(e); !d.HasErrors() {
+						line = append(line, "call:"+c.Name)
+					}
+					line = append(line, "kw:"+hcl.ExprAsKeyword(e))
+				}
+				v, d := e.Value(ctx)
+				line = append(line, show(v, d), fmt.Sprintf("vars=%d", len(e.Variables())))
+				if i == 2 {
+					if t, d := hcl.AbsTraversalForExpr(e); !d.HasErrors() {
+						tv, td := t.TraverseAbs(ctx)
+						line = append(line, "trav:"+show(tv, td))
+					}
+				}
+				out = append(out, strings.Join(line, " "))
 			}
 			return strings.Join(out, "\n")
 		}})
